@@ -7,25 +7,52 @@ import re
 
 
 class Facts:
-    def __init__(self, path):
-        with open(path) as f:
-            self.raw = json.load(f)
-        self.path = path
+    def __init__(self, path=None, raw=None):
+        if raw is None:
+            with open(path) as f:
+                raw = json.load(f)
+        self.raw = raw
+        self.path = path or "<mutated>"
         self.config = self.raw.get("config")
         self.nonce = self.raw.get("nonce")
         self.adts = self.raw["adts"]
         self.consts = self.raw["consts"]
         self.statics = self.raw["statics"]
+        import inline
+        # fx.fns = original bodies; fx.view(name) = the same function with incidental crate-local helpers inlined
         self.fns = {}
         for name, f in self.raw["fns"].items():
             self.fns[name] = Fn(self, name, f)
+        self.orig = self.fns
+        self._views = inline.Views(self.raw["fns"])
+        self._view_fns = {}
         for fn in list(self.fns.values()):
-            for i, p in enumerate(fn.raw.get("promoted", [])):
-                pn = "%s::promoted[%d]" % (fn.name, i)
-                pf = dict(p)
-                pf.update(kind="promoted", parent=fn.name, file=fn.raw["file"], line=fn.raw["line"],
-                          vis=None, reachable_pub=None, def_exp=None, promoted=[])
-                fn.promoted.append(Fn(self, pn, pf))
+            self._add_promoted(fn)
+
+    def _add_promoted(self, fn):
+        for i, p in enumerate(fn.raw.get("promoted", [])):
+            pn = "%s::promoted[%d]" % (fn.name, i)
+            pf = dict(p)
+            pf.update(kind="promoted", parent=fn.name, file=fn.raw["file"], line=fn.raw["line"],
+                      vis=None, reachable_pub=None, def_exp=None, promoted=[])
+            fn.promoted.append(Fn(self, pn, pf))
+
+    def view(self, name):
+        """the function with its incidental (non-recursive, non-primitive) crate-local callees inlined; own block ids are preserved"""
+        import os
+        if isinstance(name, Fn):
+            name = name.name
+        if os.environ.get("VERIF_NO_INLINE"):
+            return self.fns.get(name)
+        v = self._view_fns.get(name)
+        if v is None:
+            if name not in self.raw["fns"]:
+                return None
+            v = Fn(self, name, self._views.get(name))
+            v.is_view = True
+            self._add_promoted(v)
+            self._view_fns[name] = v
+        return v
 
     # -- lookups ---------------------------------------------------------
     def fn(self, name):
@@ -83,6 +110,13 @@ class Fn:
         self.impl_self = raw.get("impl_self")
         self._succ = None
         self._pred = None
+        self.is_view = False
+
+    def orig_key(self, bb):
+        """(function name, block id) identity of a block, stable across inlining"""
+        b = self.blocks[bb]
+        ob = b.get("orig_bb")
+        return (ob[0], ob[1]) if ob else (self.name, bb)
 
     @property
     def short(self):
@@ -131,13 +165,28 @@ class Fn:
         return [b["id"] for b in self.blocks if not b["cleanup"]]
 
     def calls(self):
-        """yield (bb, term) for every call terminator in non-cleanup blocks"""
+        """yield (bb, term) for every call terminator in non-cleanup blocks of the (inlined) view"""
         for b in self.blocks:
             if b["cleanup"]:
                 continue
             t = b["term"]
             if t["k"] in ("call", "tailcall"):
                 yield b["id"], t
+
+    def own_calls(self):
+        """calls in the function's own blocks only (not in code inlined from helpers): used when enumerating anchors"""
+        for b in self.blocks:
+            if b["cleanup"] or b.get("origin"):
+                continue
+            t = b["term"]
+            if t["k"] in ("call", "tailcall"):
+                yield b["id"], t
+
+    def is_own(self, bb):
+        return not self.blocks[bb].get("origin")
+
+    def own_blocks(self):
+        return [b for b in self.blocks if not b.get("origin")]
 
     def all_bodies(self):
         return [self] + self.promoted
